@@ -599,6 +599,29 @@ class Tensor:
     def transpose(self, d0, d1):
         return _mk(_np.swapaxes(self.a, d0, d1), self.dtype, (self,), view=True)
 
+    def swapaxes(self, d0, d1):
+        return self.transpose(d0, d1)
+
+    def movedim(self, src, dst):
+        return movedim(self, src, dst)
+
+    def adjoint(self):
+        return adjoint(self)
+
+    @property
+    def mT(self):
+        return self.transpose(-2, -1)
+
+    @property
+    def mH(self):
+        return adjoint(self)
+
+    @property
+    def H(self):
+        if self.a.ndim > 2:
+            raise RuntimeError('tensor.H is only supported on matrices (2-D tensors)')
+        return adjoint(self) if self.a.ndim == 2 else conj(self)
+
     def squeeze(self, dim=None):
         return squeeze(self, dim)
 
@@ -1388,6 +1411,29 @@ def permute(t, dims):
 
 def transpose(t, d0, d1):
     return t.transpose(d0, d1)
+
+
+def swapaxes(t, d0, d1):
+    return t.transpose(d0, d1)
+
+
+swapdims = swapaxes
+
+
+@_wrap_err
+def movedim(t, source, destination):
+    src = [source] if _isinstance(source, int) else list(source)
+    dst = [destination] if _isinstance(destination, int) else list(destination)
+    return _mk(_np.moveaxis(t.a, [int(v) for v in src], [int(v) for v in dst]), t.dtype, (t,), view=True)
+
+
+moveaxis = movedim
+
+
+def adjoint(t):
+    if t.a.ndim < 2:
+        raise RuntimeError('tensor.adjoint() is only supported on matrices or batches of matrices')
+    return conj(t.transpose(-2, -1))
 
 
 def t(x):
